@@ -8,6 +8,7 @@ import (
 	"regexp"
 	"sort"
 	"strings"
+	"time"
 
 	. "verif/internal/proto"
 )
@@ -493,6 +494,11 @@ func checkC10(c *Ctx) {
 			c.Violation("whole:"+resp.Kind+":"+req.Op+"|"+RunesToString(req.Src), fmt.Sprintf("program %q through %s -> %s %s %s", RunesToString(req.Src), req.Op, resp.Kind, clip(resp.Panic, 300), clip(resp.Stderr, 300)), map[string]interface{}{"req": req})
 		}
 	})
+	// values nested millions of levels deep, built at run time at linear cost (a method hangs a
+	// copied 1500-level template below the innermost list of its argument, thousands of times),
+	// then copied, displayed, compared, searched, reversed, thrown …: every helper that walks a
+	// value must come back with a value or a Zn error, not with a Go stack overflow
+	c10DeepValues(c)
 	preqs := make([]Req, len(pjobs))
 	for i, p := range pjobs {
 		r := execReq(p.src)
@@ -616,4 +622,114 @@ func c10NestedRecursion(n int, how string) string {
 	}
 	sb.WriteString("输出（深：1）\n")
 	return sb.String()
+}
+
+// c10DeepProgram: 甲 becomes a list nested (rounds+1)*1500 levels deep (dictionary levels mixed in
+// when dict is set); each trigger then runs in a method of its own whose handler turns a Zn error
+// into a value, so that one program exercises them all.
+func c10DeepProgram(rounds int, dict bool, triggers []string) string {
+	const K = 1500
+	var tmpl, chain strings.Builder
+	for i := 0; i < K; i++ {
+		if dict && i%3 == 1 {
+			tmpl.WriteString("【k = ")
+		} else {
+			tmpl.WriteString("【")
+		}
+	}
+	tmpl.WriteString("0" + strings.Repeat("】", K))
+	// 节点#1 is the template just stored; K-1 more steps lead to its innermost list
+	for i := 1; i < K; i++ {
+		if dict && i%3 == 1 {
+			chain.WriteString("#“k”")
+		} else {
+			chain.WriteString("#1")
+		}
+	}
+	var sb strings.Builder
+	sb.WriteString("导入《@JSON》\n令模板 = " + tmpl.String() + "\n令甲 = 【0】\n令乙 = 【0】\n\n如何加深？\n\t输入节点、次数\n\t节点#1 = 模板\n\t如果次数 > 0：\n\t\t（加深：节点#1" + chain.String() + "、次数 - 1）\n\n")
+	sb.WriteString(fmt.Sprintf("（加深：甲、%d）\n（加深：乙、%d）\n令结果 = 【】\n", rounds, rounds))
+	for i, t := range triggers {
+		sb.WriteString(fmt.Sprintf("如何试%d？\n\t%s\n\t输出 “值”\n\n\t拦截异常：\n\t\t输出 “错”\n", i, strings.ReplaceAll(t, "\n", "\n\t")))
+		sb.WriteString(fmt.Sprintf("以结果（后增：（试%d））\n", i))
+	}
+	sb.WriteString("输出 结果\n")
+	return sb.String()
+}
+
+func c10DeepValues(c *Ctx) {
+	triggers := []string{
+		"令丙 = 甲", "令丙 = 【1、甲、2】", "令丙 = 【a = 甲】", "令丙 = 【】\n以丙（后增：甲）", "令丙 = 甲之逆序", "令丙 = 【a = 甲】之所有值",
+		"令同 = 甲 为 乙", "令同 = 甲 不为 乙", "令同 = 甲 == 乙", "令同 = 以【乙】（包含：甲）", "令同 = 以【乙】（寻找：甲）",
+		"令长 = 甲之文本之长度", "令长 = {“{}” % 【甲】}之长度", "令长 = 【a = 甲】之文本之长度", "抛出异常：甲！",
+		"令文 =（生成JSON：【a = 甲】）",
+	}
+	type variant struct {
+		rounds int
+		dict   bool
+	}
+	vs := []variant{{2200, false}}
+	if !c.Quick() {
+		vs = append(vs, variant{2200, true}, variant{4500, false})
+	}
+	// (a control with few rounds first: the program itself is a valid one and every trigger
+	// yields a value)
+	ctl := execReq(c10DeepProgram(2, false, triggers))
+	ctl.Libs = true
+	ctl.EvalBudget = 0
+	resp := c.Pool.DoT(ctl, 5*time.Minute)
+	c.Eval()
+	if resp.Kind != "value" || resp.Val == nil {
+		msg := ""
+		if resp.Err != nil {
+			msg = fmt.Sprintf("%d %s", resp.Err.Code, clip(resp.Err.Text, 400))
+		}
+		c.Inconclusive("deep-values control program did not yield a value: " + resp.Kind + " " + msg + " " + clip(resp.Stderr, 300))
+		return
+	}
+	control := resp.Val.String()
+	c.Nontrivial("deep|control|" + control)
+	c.Sample(map[string]string{"deep-values": "control (3 rounds)", "outcome": control})
+	for _, v := range vs {
+		// one program per trigger group in the thorough tier would cost a build each: one program
+		// runs them all; which trigger was running when a process died is in its stderr
+		r := execReq(c10DeepProgram(v.rounds, v.dict, triggers))
+		r.Libs = true
+		r.EvalBudget = 0
+		resp := c.Pool.DoT(r, 20*time.Minute)
+		c.Eval()
+		c.Count("deep_value_programs", 1)
+		c.Count("deep_value_levels", int64((v.rounds+1)*1500))
+		name := fmt.Sprintf("rounds=%d,dict=%v", v.rounds, v.dict)
+		switch resp.Kind {
+		case "value", "error":
+			got := resp.Kind
+			if resp.Val != nil {
+				got = resp.Val.String()
+			}
+			c.Nontrivial("deep|" + name + "|" + got)
+			// copying, displaying, reversing, formatting and throwing have no bound of their own:
+			// with the deep value they must end as they do with the shallow one (comparisons
+			// and JSON generation may refuse the depth with an error instead)
+			if resp.Kind == "value" && resp.Val != nil && len(resp.Val.Items) == len(triggers) && len(strings.Split(control, ",")) == len(triggers) {
+				ctl := strings.Split(control, ",")
+				dp := strings.Split(got, ",")
+				for ti, t := range triggers {
+					if strings.Contains(t, "令同") || strings.Contains(t, "JSON") {
+						continue
+					}
+					if strings.Contains(ctl[ti], "值") != strings.Contains(dp[ti], "值") {
+						c.Violation("deep-outcome:"+name+":"+t, fmt.Sprintf("with a list nested %d levels deep the statement %q ends differently (%s) than with one nested 4500 levels deep (%s)", (v.rounds+1)*1500, t, dp[ti], ctl[ti]), map[string]interface{}{"req": r})
+					}
+				}
+			} else {
+				c.Violation("deep-shape:"+name, "the deep-values program did not return its list of outcomes: "+clip(got, 300), map[string]interface{}{"req": r})
+			}
+			c.Sample(map[string]string{"deep-values": name, "outcome": got})
+		case "timeout":
+			c.Inconclusive("deep-values program " + name + " did not finish in 20 minutes")
+		default:
+			c.Violation("deep:"+name, fmt.Sprintf("a list nested %d levels deep, built at run time by a method that hangs a 1500-level template below the innermost list of its argument %d times, then copied / displayed / compared / searched / thrown: the host process ended (%s) instead of yielding a value or a Zn error\n%s\n%s", (v.rounds+1)*1500, v.rounds+1, resp.Kind, clip(resp.Panic, 300), clip(resp.Stderr, 600)), map[string]interface{}{"req": r})
+		}
+	}
 }
